@@ -29,15 +29,15 @@ PLAN = {
                 thorough=[("asa", "M1", None), ("ios", "M1", None), ("linux", "M1", None)]),
     "C16": dict(mode="det", tags={"C16"}, spec="DetTrace", level="exploration",
                 quick=[("asa", "F9", 5000), ("asa", "F2", 2000), ("asa", "F7", 1000), ("ios", "F8", 1000),
-                       ("ios", "F3", 1000), ("panos", "P2", 1500), ("linux", "I1", 500), ("nsx", "N1", 1500), ("nsx", "N3", None),
+                       ("ios", "F3", 1000), ("ios", "V1L", 800), ("panos", "P2", 1500), ("linux", "I1", 500), ("nsx", "N1", 1500), ("nsx", "N3", None),
                        ("asav", "F5", 800)],
                 thorough=[("asa", "F9", None), ("asa", "F2", 30000), ("asa", "F7", 10000), ("asa", "F3", 5000),
                           ("ios", "F8", 20000), ("ios", "F3", 10000), ("ios", "F7", 5000)]),
     "C02": dict(mode="conv", tags={"EQUIV", "FIXPOINT"},
                 quick=[("ios", "F1L", 4000), ("ios", "F1", 5000), ("ios", "F8", 5000), ("ios", "F3", 3000),
-                       ("ios", "F4", 2500), ("ios", "F7", 2000)],
+                       ("ios", "F4", 2500), ("ios", "F7", 2000), ("ios", "V1L", 3000)],
                 thorough=[("ios", "F1L", None), ("ios", "F1", None), ("ios", "F8", 60000), ("ios", "F3", None),
-                          ("ios", "F4", None), ("ios", "F7", None)]),
+                          ("ios", "F4", None), ("ios", "F7", None), ("ios", "V1L", None)]),
     "C01": dict(mode="conv", tags={"EQUIV", "FIXPOINT"},
                 quick=[("asa", "F1L", 3000), ("asa", "F1", 4000), ("asa", "F2", 6000), ("asa", "F3", 2000),
                        ("asa", "F4", 1500), ("asa", "F7", 2000), ("asav", "F5", 4000)],
@@ -45,21 +45,21 @@ PLAN = {
                           ("asa", "F4", None), ("asa", "F7", 30000), ("asav", "F5", None)]),
     "C07": dict(mode="conv", tags={"C07"},
                 quick=[("asav", "F5", 3000), ("asa", "F7", 6000), ("asa", "F2", 1500), ("asa", "F3", 1000), ("asa", "F4", 1000),
-                       ("ios", "F7", 5000), ("ios", "F3", 1500), ("ios", "F4", 1500), ("panos", "P7", None),
+                       ("ios", "F7", 5000), ("ios", "F3", 1500), ("ios", "F4", 1500), ("ios", "V1L", 1500), ("panos", "P7", None),
                        ("panos", "P2", 1500), ("nsx", "N1", 1500), ("nsx", "N2", None)],
                 thorough=[("asav", "F5", None), ("asa", "F7", None), ("asa", "F2", 30000), ("asa", "F3", 30000), ("asa", "F4", None),
-                          ("ios", "F7", None), ("ios", "F3", None), ("ios", "F4", None), ("panos", "P7", None),
+                          ("ios", "F7", None), ("ios", "F3", None), ("ios", "F4", None), ("ios", "V1L", None), ("panos", "P7", None),
                           ("panos", "P2", None), ("panos", "P1", None), ("nsx", "N1", None), ("nsx", "N2", None)]),
     "C08": dict(mode="conv", tags={"C08"},
                 quick=[("asav", "F5", 4000), ("asa", "F1", 2000), ("asa", "F2", 6000), ("asa", "F3", 2000),
                        ("asa", "F4", 1000), ("asa", "F7", 2000),
                        ("ios", "F1", 2500), ("ios", "F8", 2500), ("ios", "F3", 2000), ("ios", "F4", 1000),
-                       ("ios", "F7", 1500), ("panos", "P1", None), ("panos", "P2", 2500), ("panos", "P3", None),
+                       ("ios", "F7", 1500), ("ios", "V1L", 1500), ("panos", "P1", None), ("panos", "P2", 2500), ("panos", "P3", None),
                        ("nsx", "N1", 3000), ("nsx", "N2", None), ("nsx", "N3", None)],
                 thorough=[("asav", "F5", None), ("asa", "F1", None), ("asa", "F2", None), ("asa", "F3", 40000),
                           ("asa", "F4", None), ("asa", "F7", 40000),
                           ("ios", "F1", None), ("ios", "F8", 60000), ("ios", "F3", None), ("ios", "F4", None),
-                          ("ios", "F7", None), ("panos", "P1", None), ("panos", "P2", None), ("panos", "P3", None),
+                          ("ios", "F7", None), ("ios", "V1L", None), ("panos", "P1", None), ("panos", "P2", None), ("panos", "P3", None),
                           ("nsx", "N1", None), ("nsx", "N2", None), ("nsx", "N3", None)]),
     "C14": dict(mode="conv", tags={"C14"},
                 quick=[("asa", "F1L", 6000), ("ios", "F1L", 6000), ("asa", "F1", 6000), ("asa", "F4", None), ("asa", "F3", 1500),
@@ -69,17 +69,17 @@ PLAN = {
     "C10": dict(mode="resume", tags={"EQUIV", "FIXPOINT", "C08"},
                 quick=[("asav", "F5", 600), ("asa", "F1", 500), ("asa", "F2", 1200), ("asa", "F3", 400),
                        ("asa", "F4", 400), ("asa", "F7", 400),
-                       ("ios", "F1", 500), ("ios", "F8", 500), ("ios", "F3", 400), ("ios", "F4", 400),
+                       ("ios", "F1", 500), ("ios", "F8", 500), ("ios", "F3", 400), ("ios", "F4", 400), ("ios", "V1L", 300),
                        ("linux", "R1", 600), ("linux", "I2", 200), ("panos", "P1", 300), ("panos", "P2", 500),
                        ("panos", "P3", 300), ("nsx", "N1", 500), ("nsx", "N2", 200)],
                 thorough=[("asav", "F5", 8000), ("asa", "F1", 8000), ("asa", "F2", 20000), ("asa", "F3", 6000),
                           ("asa", "F4", None), ("asa", "F7", 8000),
-                          ("ios", "F1", 8000), ("ios", "F8", 8000), ("ios", "F3", 6000), ("ios", "F4", 6000),
+                          ("ios", "F1", 8000), ("ios", "F8", 8000), ("ios", "F3", 6000), ("ios", "F4", 6000), ("ios", "V1L", 5000),
                           ("linux", "R1", None), ("linux", "I1", 5000), ("linux", "I2", None),
                           ("panos", "P1", None), ("panos", "P2", None), ("panos", "P3", None)]),
 }
 
-IOS_FAMS = {"F1L": {"MaxLen": 5}, "F1": {"MaxLen": 3}, "F3": {"MaxLen": 3}, "F4": {"MaxLen": 3}, "F7": {"MaxLen": 2},
+IOS_FAMS = {"V1L": {"MaxLen": 3}, "F1L": {"MaxLen": 5}, "F1": {"MaxLen": 3}, "F3": {"MaxLen": 3}, "F4": {"MaxLen": 3}, "F7": {"MaxLen": 2},
             "F8": {"MaxLen": 3}}
 LINUX_FAMS = {"R1": {"MaxLen": 3}, "I1": {"MaxLen": 2}, "I2": {"MaxLen": 2}, "M1": {"MaxLen": 3}}
 ASA_FAMS["M1"] = {"MaxLen": 3}
